@@ -36,7 +36,9 @@ def strategy(tier):
                   option_help=st.sampled_from(['"Help @"', "HELP@", '"help: with colon @"', '"he said \\"@\\""', "${help@}",
                                                '""', "[[bracket help @]]"]),
                   max_items=6 if tier == "quick" else 10, depth=2, dangling=False, groups=False, moddoc=False, dups=True)
-    return st.fixed_dictionaries({"module": G.module(p), "layout": G.layout_choices(24), "twins": st.booleans()})
+    return st.fixed_dictionaries({"module": G.module(p), "layout": G.layout_choices(24), "twins": st.booleans(),
+                                  "strip": st.sampled_from(["", "", "^_[a-zA-Z]*_", "[0-9]+", "^[A-Za-z]", "\\W"]),
+                                  "help_is_doc": st.sampled_from([False, False, True])})
 
 
 def with_twins(module):
@@ -73,6 +75,12 @@ def evaluate(case):
     module = with_twins(case["module"]) if case.get("twins") else case["module"]
     if case.get("twins"):
         res.labels.append("twin-commands")
+    if case.get("help_is_doc"):
+        module = help_from_doc(module)
+        res.labels.append("option-help-equals-doc")
+    ms = M.MSettings(strip_function=case.get("strip", ""), strip_macro=case.get("strip", ""), strip_member=case.get("strip", ""))
+    if case.get("strip"):
+        res.labels.append("strip-regex-configured")
     src = R.render(module, case["layout"])
     sets = [it for it, _, _ in G.walk(module["items"]) if it["k"] == "set" and it["doc"]]
     opts = [it for it, _, _ in G.walk(module["items"]) if it["k"] == "option"]
@@ -97,7 +105,7 @@ def evaluate(case):
     res.nontrivial = nt and bool(sets)
     if res.nontrivial:
         res.sample = {"source": short(src, 600)}
-    run = document_text(src, real_settings())
+    run = document_text(src, real_settings(ms))
     if run.exc is not None:
         res.fail(exc_key(run.exc), repr(run.exc)[:300])
         return res
@@ -110,6 +118,20 @@ def evaluate(case):
     return res
 
 
+def help_from_doc(module):
+    """The help string of a documented option repeats its doccomment word for word."""
+    import copy
+    mod = copy.deepcopy(module)
+    for it, _, _ in G.walk(mod["items"]):
+        if it["k"] == "option" and it.get("doc") and it["doc"]["lines"]:
+            words = " ".join(l for l in it["doc"]["lines"] if l.strip())
+            if words and '"' not in words and "\\" not in words:
+                it["help"] = '"' + words + '"'
+    return mod
+
+
 def describe(case):
     module = with_twins(case["module"]) if case.get("twins") else case["module"]
+    if case.get("help_is_doc"):
+        module = help_from_doc(module)
     return {"source": R.render(module, case["layout"])}
